@@ -227,6 +227,11 @@ impl Prop for C07 {
         } else {
             vec![(0, 3), (1, 3), (2, 2), (3, 3), (4, 3), (5, 2), (6, 2), (7, 3)]
         };
+        v.push(Scope::new("free-running", "supplementary (a sample of machine schedules, can only add violations): 6 free OS threads convert tagged and plain drawings at different scales 30 times each, compared with the sequential result", |f| {
+            for round in 0..4 {
+                f(Case::sn("free", vec![round]));
+            }
+        }));
         v.push(Scope::new("schedules", "harness x preemption bound x subtree of the default execution", move |f| {
             for &(h, b) in &hs {
                 // the default execution plus up to 96 subtrees below it
@@ -334,6 +339,52 @@ impl Prop for C07 {
                     }
                 }
                 cx.outcome(&("order", p));
+            }
+            "free-running" => {
+                let inputs: Vec<String> = vec![
+                    (0..6).map(|_| "+---+ +---+ +---+\n|{w}| |{w}| |{w}|\n+---+ +---+ +---+").collect::<Vec<_>>().join("\n"),
+                    "+-----+\n|{a,b}|\n+-----+\n# Legend:\na = {fill:red}".to_string(),
+                    "*--> .-.\n    ( a )\n     `-'".to_string(),
+                ];
+                let scales = [1.0f32, 37.5, 3.0, 20.0, 8.0, 0.5];
+                // sequential references
+                let mut refs: Vec<Vec<Result<String, String>>> = vec![];
+                for sc in scales {
+                    refs.push(inputs.iter().map(|i| convert_in_process(i, &Sett::bare_scale(sc))).collect());
+                }
+                let inputs = Arc::new(inputs);
+                let mut hs = vec![];
+                for (t, sc) in scales.iter().enumerate() {
+                    let inputs = inputs.clone();
+                    let sc = *sc;
+                    hs.push(std::thread::spawn(move || {
+                        let mut outs = vec![];
+                        for _ in 0..30 {
+                            for i in inputs.iter() {
+                                outs.push(convert_in_process(i, &Sett::bare_scale(sc)));
+                            }
+                        }
+                        (t, outs)
+                    }));
+                }
+                for h in hs {
+                    let (t, outs) = match h.join() {
+                        Ok(x) => x,
+                        Err(_) => {
+                            cx.fail("free-running", "a free-running thread panicked".into());
+                            return;
+                        }
+                    };
+                    cx.conversions += outs.len() as u64;
+                    for (k, o) in outs.iter().enumerate() {
+                        cx.compared();
+                        if *o != refs[t][k % refs[t].len()] {
+                            cx.fail("free-running", format!("thread {} at scale {}: conversion #{} of input {:?} differs from the sequential result while other threads convert at other scales", t, scales[t], k, crate::runner::trunc(&inputs[k % inputs.len()], 60)));
+                            return;
+                        }
+                    }
+                }
+                cx.outcome(&("free-running", case.n[0]));
             }
             "seam-all-orders" | "seam-structured" => {
                 let sett = Sett::bare();
